@@ -80,6 +80,7 @@ def _kw_identity(kw):
 
 class C09(Prop):
     id = "C09"
+    track_states = True
     quick_runs = 2000
     thorough_runs = 40000
     assumptions = [
